@@ -31,7 +31,7 @@ RULE = ("Pairs (A, B) from a pool: same configuration; differing only in RELATIV
         "that already read or wrote shared state); distinct on (pair, file, line).")
 ASSUMPTIONS = ["one preemption per schedule, B to completion (the property's schedule class); schedules with two or more preemptions are not explored",
                "frozen clock", "results alone are taken in a forked child from the same start state; pairs whose sequential orders disagree are C03's subject and skipped"]
-ESSENTIAL = ["pair:formats-vs-plain", "pair:same-config", "pair:differ-base-or-prefs", "pair:differ-language-order", "pair:differ-skip-normalize", "pair:parse-vs-search",
+ESSENTIAL = ["pair:zone-vs-other", "pair:formats-vs-plain", "pair:same-config", "pair:differ-base-or-prefs", "pair:differ-language-order", "pair:differ-skip-normalize", "pair:parse-vs-search",
              "start:warm", "start:cold", "preempted-in-library", "direction:AB", "direction:BA"]
 
 NOW = dt.datetime(2015, 6, 15, 10, 30)
@@ -61,6 +61,12 @@ PAIRS = [
      ["search", "It was launched on 4 October 1957. We remembered it 2 days ago, yesterday.", ["en"], None, False]),
     ("parse-vs-search", ["search", "Le 12 janvier 2020. Puis hier.", ["fr"], {"DATE_ORDER": "DMY"}, False],
      ["parse", "hier", None, ["fr"], None, None, {"DATE_ORDER": "DMY"}]),
+    # a string that names a zone against one that names another zone or none (anything kept between popping the zone and
+    # applying it must be per call)
+    ("zone-vs-other", ["parse", "2015-02-03 14:05 EST", None, ["en"], None, None, None], ["parse", "3 February 2015 10:00", None, ["en"], None, None, None]),
+    ("zone-vs-other", ["parse", "3 Feb 2015 14:05 +0530", None, ["en"], None, None, None], ["parse", "10 March 2020 10:00 PST", None, ["en"], None, None, None]),
+    ("zone-vs-other", ["parse", "2 hours ago UTC+3", None, ["en"], None, None, {"RELATIVE_BASE": [2020, 6, 15, 12, 0, 0, 0]}],
+     ["parse", "yesterday 10:00 EST", None, ["en"], None, None, {"RELATIVE_BASE": [2020, 6, 15, 12, 0, 0, 0]}]),
     # a call with custom date_formats (translation that keeps the formatting) against an ordinary call in the same language
     ("formats-vs-plain", ["parse", "03, février 01", ["%y, %B %d"], ["fr"], None, None, None], ["parse", "12 mars 2015", None, ["fr"], None, None, None]),
     ("formats-vs-plain", ["parse", "Dienstag; 3. März 2015", ["%A; %d. %B %Y"], ["de"], None, None, None], ["parse", "3 März 2015 14:05", None, ["de"], None, None, None]),
